@@ -9,4 +9,5 @@ let table : (string * (z list -> z list)) list = [
   ("engine", run_engine);
   ("regex", run_regex);
   ("source", run_source);
+  ("framing", run_framing);
 ]
